@@ -946,6 +946,7 @@ PROPS["C13"] = {"run": run_c13}
 import gen_sdk
 PROPS["C20"] = {"run": lambda p, tier, seed, replay, t0: run_node_property(
     p, tier, seed, replay, t0, module="Iggy.Props.C20", gen=gen_sdk.gen_any, http=False,
+    more_modules=["Iggy.Props.C20Rewind"],
     n_quick=160, n_thorough=2000,
     spec_prefixes=["producer-", "consumer-", "group-", "commit-", "sdk-", "hl-", "poll-"],
     corr_kinds={"psend", "cnext", "cstore", "poll-offsets", "poll-content", "poll-cur", "poll-status", "send", "group"},
